@@ -30,6 +30,7 @@ where
             gen_sig::c02::<CS>(h);
             gen_sig::c02_sizes::<CS>(h);
             gen_sig::c02_repeats::<CS>(h);
+            gen_sig::c02_absent_messages::<CS>(h);
             gen_sig::c02_large_octets::<CS>(h);
             gen_sig::interleave_dispatch(h, "C02");
             use zkryptium::bbsplus::ciphersuites::{Bls12381Sha256, Bls12381Shake256};
